@@ -38,7 +38,9 @@ CLAIMS = {
     'C16': ('abstract interpretation of planArc / computeArcCenterOffsets with polynomial value numbering over opaque '
             'trigonometric applications: end point verbatim, circle form of every sample, equal angular steps travel/n from '
             'atan2(-j,-i), n-1 samples, direction normalisation of the sweep, cross/dot arguments of the sweep angle, '
-            'segment density, centre law of the radius form (with rewrite rules hypot^2, sqrt^2), no raising path',
+            'segment density, centre law of the radius form (with rewrite rules hypot^2, sqrt^2), no raising path; handler wiring '
+            'on every G2/G3 path (end point and centre offsets from this command\'s words, 0 where absent, direction, the planned '
+            'points handed on in order); module-level tables that may change at run time are read as unknown history',
             'ONLY the symbolic construction is decided: floating-point values of the samples (rounding in atan2/cos/sin, drift, '
             'chord lengths) are not decided by this family; absolute positioning only'),
     'C17': ('exhaustive evaluation over the sign/order decisions of every comparison in containsPoint / containsRegion / '
@@ -52,8 +54,9 @@ CLAIMS = {
             'semantics of re as in re._parser'),
     'C19': ('regex language inclusion both ways against the RS274 number grammar, tokeniser progress automaton, abstract '
             'interpretation of parameterItems (order, upper-casing, float conversion, offset chaining), last-wins of '
-            'parameterDict, dependence analysis letter -> tracked quantity over all handler paths',
-            'float() versus firmware strtod trusted; one occurrence per letter in the handler analysis'),
+            'parameterDict, dependence analysis letter -> tracked quantity over all handler paths, last-wins for repeated words, '
+            'insensitivity of every handler to the trailing string-argument item of parameterItems',
+            'float() versus firmware strtod trusted; at most two occurrences per letter in the handler analysis'),
     'C20': ('abstract interpretation of StreamProcessor.__init__ (heap reachability: no live object reachable, deep copy) '
             'and process_line over the result shapes of the handlers (mapping, EOL, byte-for-byte pass-through, stale reads '
             'through the shared parser, flags of the command handed to the handlers)',
@@ -61,7 +64,7 @@ CLAIMS = {
     'C11': ('abstract interpretation of on_event for every event constant x active flag x clear setting against the '
             'reference transition table; hooks with no active print return None without effects; writer census of the flag',
             'OctoPrint event delivery and distinctness of event names trusted; stored settings valid'),
-    'C12': ('abstract interpretation of the delete/update API routes under (printing, shrinking disallowed): refusal is '
+    'C12': ('abstract interpretation of every API command (add, update, delete, unknown) under (printing, shrinking disallowed): refusal is '
             'effect free, a replacement is dominated by new.containsRegion(old)=True on the id-matched slot; writer census '
             'of the region list and of region geometry fields',
             'soundness of containsRegion itself is C17; regions reachable only through the state list'),
@@ -70,10 +73,12 @@ CLAIMS = {
             'ids compared with ==; serialisation by OctoPrint trusted'),
     'C14': ('abstract interpretation of handleAtCommand over symbolic configured actions (action mapping, exit sequence '
             'sent in order, streaming/no-match effect free) and of the motion handlers with exclusion disabled '
-            '(no exclusion, tracking unchanged)',
+            '(no exclusion, tracked position equal to the firmware reference in both positioning modes); the retraction / '
+            'E-register typestate machine with the @-command actions in its environment (nothing owed is lost through a disable)',
             'parameter pattern matching is a user regular expression (opaque); exit sequence itself is C03'),
     'C15': ('abstract interpretation of handleScriptHook for matching / other / symbolic script names x active x '
-            'excluding: contributes the exit sequence as prefix exactly when required, closes the episode, otherwise no effect',
+            'excluding: contributes the exit sequence as prefix exactly when required, closes the episode, otherwise no effect; the '
+            'prefix is a fresh list (configured scripts neither handed out nor mutated)',
             'ordering of script hook versus print-done event is OctoPrint behaviour'),
     'C07': ('every synthesised command found on any abstract path (exit, retraction, firmware retract) and the merged '
             'deferred command: skeleton shape, distinct letters, and a per-word proof that the formatter cannot produce '
@@ -81,7 +86,9 @@ CLAIMS = {
             'finiteness of the values is not decided'),
     'C08': ('conversion laws of AxisPosition as polynomial identities (round trips in both modes, firmware map, G92 law, '
             'homing), native arguments of the region tests, sibling agreement of G20/G21/G90/G91 over all axes and the feed '
-            'rate, ownership census of the axis fields, mode validity of the arc handlers\' coordinates',
+            'rate, ownership census of the axis fields, mode validity of the arc handlers\' coordinates, exact firmware reference for '
+            'the tracked position after every G0/G1 path and after point lists in both positioning modes, unit homogeneity of '
+            'every decision polynomial',
             'decides the inch / relative / G92 re-encodings up to exact arithmetic; translation by a common vector and '
             'round-off near borders are not decided; G92 law and relative-mode arcs are recorded known findings'),
     'C09': ('every abstract path of every handler: result shape None / IGNORE / non-empty list of non-empty commands; '
